@@ -4,6 +4,10 @@
 
 package context
 
+import "strings"
+
+var _ = strings.HasPrefix
+
 func verif_forall[T any](f func(T) bool) bool { return true }
 
 // SpecUeOK: the invariant of every subscriber context in the pool: established by (*ChfUe).init,
@@ -29,4 +33,10 @@ func SpecUeOf(supi string) *ChfUe { return nil }
 //@ func (*CHFContext).ChfUeFindBySupi [C11 C12 C10 C01 C06]
 //@   trusted
 //@   ensures result1 ==> SpecUeOK(result0) && result0 == SpecUeOf(supi)
+//@   ensures result1 ==> strings.HasPrefix(supi, "imsi-")
 //@   ensures !result1 ==> result0 == nil
+
+// FindRatingGroup: a pure search.
+//@ func (*ChfUe).FindRatingGroup [C11]
+//@   requires ue != nil
+//@   loop 0: invariant 0 <= ITER
